@@ -19,7 +19,12 @@ func CanonARPA(a netip.Addr) string {
 		sb.WriteString("in-addr.arpa")
 		return sb.String()
 	}
-	b := a.As16()
+	return CanonARPA6(a.As16())
+}
+
+// CanonARPA6 encodes 16 bytes in the ip6.arpa form regardless of mapping.
+func CanonARPA6(b [16]byte) string {
+	var sb strings.Builder
 	const hex = "0123456789abcdef"
 	for i := 15; i >= 0; i-- {
 		sb.WriteByte(hex[b[i]&0xf])
